@@ -55,7 +55,7 @@ def base_args(ep, ctx):
     L = pd.DataFrame({'k': [1, 2, 3], 's': pd.Series(['a b', 'a b c', miss], dtype=dtype),
                       'num': [1, 2, 3], 'flt': [1.5, 2.0, np.nan], 'o': pd.Series(['p', 'q', 'r'], dtype=object)})
     R = pd.DataFrame({'k': ['u', 'v'], 's': pd.Series(['a b', miss], dtype=dtype), 'num': [7, 8],
-                      'o': pd.Series(['p', None], dtype=object)})
+                      'ro': pd.Series(['p', None], dtype=object)})
     m = measure_of(ep)
     if is_edit(ep):
         tok = CountingQG(qval=2, return_set=ctx['set_mode'])
@@ -63,7 +63,7 @@ def base_args(ep, ctx):
         tok = CountingWS(return_set=ctx['set_mode'])
     a = dict(ltable=L, rtable=R, l_key='k', r_key='k', l_attr='s', r_attr='s', tokenizer=tok,
              threshold={'OVERLAP': 1, 'EDIT_DISTANCE': 1}.get(m, 0.5),
-             comp_op='<=' if is_edit(ep) else '>=', l_out=['o'], r_out=['o'], measure=m,
+             comp_op='<=' if is_edit(ep) else '>=', l_out=['o'], r_out=['ro'], measure=m,
              candset=pd.DataFrame({'_id': [0, 1, 2], 'l_k': [1, 2, 3], 'r_k': ['u', 'v', 'u']}),
              cl_key='l_k', cr_key='r_k', profile_attrs=['k', 's'])
     if ep == 'matcher':
@@ -278,8 +278,9 @@ def w_valid(job):
                         dt = object if dtype == 'object' else dtype
                         L = pd.DataFrame({'k': pd.Series(list(range(len(lvv))), dtype='int64'),
                                           's': pd.Series(lvv, dtype=dt), 'o': pd.Series(lvv, dtype=dt)})
-                        R = pd.DataFrame({'k': pd.Series(['r%d' % i for i in range(len(rvv))], dtype=object),
-                                          's': pd.Series(rvv, dtype=dt), 'o': pd.Series(rvv, dtype=dt)})
+                        R = pd.DataFrame({'ro': pd.Series(rvv, dtype=dt),
+                                          'k': pd.Series(['r%d' % i for i in range(len(rvv))], dtype=object),
+                                          's': pd.Series(rvv, dtype=dt)})
                         cs = [(a, b) for a in L['k'].tolist() for b in R['k'].tolist()]
                         a = base_args(ep, {'missing': False, 'set_mode': set_mode})
                         a.update(ltable=L, rtable=R, threshold=t,
